@@ -14,7 +14,6 @@ From V.model Require Import RelEdit RelEditSpec RelEditTree RelLiveAll RelLiveAl
 From V.proofs Require Import BaseP RelEditP RelEditStP RelEditHistP RelEditTreeP RelEditReplaceP RelEditBuildP RelGrammarAccP.
 From V.proofs Require Import RelEditParsedP RelEditSubXP RelEditParsedAllP RelGrammarAllParseP.
 From V.proofs Require Import RelLiveAllP RelLiveAllStepP RelLiveAllWfP RelLiveAllNormP RelLiveAllHistP RelLiveAllParsedP.
-Set Default Timeout 60.
 
 (* ------------------------------------------------------------------ registers *)
 Definition reg_at (rs : list (option hnd)) (q : nat) : option hnd :=
